@@ -239,6 +239,47 @@ def rule_scalar_bytes_operand(ctx, fx, config, prop="C07"):
     ctx.floor("LIMIT.scalar-bytes-increments", n[0], 1, config)
 
 
+def rule_container_slot(ctx, fx, config):
+    """SLOT (containers): the enforcer tracks, per open mapping, whether the next node is a key or a value (only an untagged plain
+    `<<` in *key* position is a merge key).  A container node occupies one slot of its parent mapping: closing it completes an
+    entry only if it was opened in *value* position.  So (a) the container's frame records the position it was opened in — a
+    value computed by `entering_container`, true exactly on the not-expecting-a-key path — and (b) `leave_sequence` /
+    `leave_mapping` call `finish_value` only under that recorded flag.  Unconditional, a sequence or mapping used as a *key*
+    (`? [a, b]`) flips the key/value parity of the rest of the mapping: later merge keys are not counted, plain `<<` values are."""
+    ec = fx.fn("budget::BudgetEnforcer::entering_container")
+    ctx.saw(ec)
+    # (a1) entering_container answers `true` only where the parent mapping was NOT expecting a key
+    trues = [b for b, i, s_ in ec.stmts() if s_["k"] == "assign" and s_["p"]["l"] == 0 and not s_["p"]["pr"] and ec.sym_rvalue(s_["rv"]) == ("const", True, "bool")]
+    exp = [(sb, tt, ff) for sb, sym, tt, ff in bool_switches(ec) if render(sym).endswith("expecting_key")]
+    oka = bool(trues) and bool(exp) and all(any(ec.edge_dominates(sb, ff, tb) for sb, tt, ff in exp) for tb in trues)
+    ctx.check(oka, "SLOT", "C07:SLOT:container:opened-in-value-position", "entering_container answers true exactly on the path where the parent mapping was not expecting a key",
+              "entering_container no longer tells key position from value position (its `true` answer is not confined to the not-expecting-a-key edge, or it answers nothing)", config, ctx.where(ec))
+    # (a2) the frames pushed by observe carry that answer
+    obs = fx.fn("budget::BudgetEnforcer::observe")
+    nfr = 0
+    for b, i, adt, var, fl, ops, s_ in aggregates(obs):
+        if adt == "budget::ContainerState":
+            nfr += 1
+            okf = "from_mapping_value" in fl
+            if okf:
+                with obs.deep():
+                    v = obs.sym_operand(s_["rv"]["ops"][fl.index("from_mapping_value")])
+                okf = v[0] == "call" and v[1] == ec.npath
+            ctx.check(okf, "SLOT", "C07:SLOT:container:frame-records-position:%s" % var, "the %s frame records the position the container was opened in (entering_container's answer)" % var,
+                      "the %s frame pushed by observe does not record whether the container was opened in value position" % var, config, ctx.where(obs, b))
+    ctx.floor("SLOT.container-frames", nfr, 2, config)
+    # (b) leave_* completes an entry only under the recorded flag
+    for nm in ("leave_sequence", "leave_mapping"):
+        g = fx.fn("budget::BudgetEnforcer::" + nm)
+        ctx.saw(g)
+        fin = [b for b, t in g.calls() if fx.callee(t) == "budget::BudgetEnforcer::finish_value"]
+        with g.deep():
+            flags = [(sb, tt) for sb, sym, tt, ff in bool_switches(g) if "from_mapping_value" in render(g.sym_operand(g.blocks[sb]["term"]["o"])) and "pop(" in render(g.sym_operand(g.blocks[sb]["term"]["o"]))]
+        okb = bool(fin) and bool(flags) and all(any(g.edge_dominates(sb, tt, fb) for sb, tt in flags) for fb in fin)
+        ctx.check(okb, "SLOT", "C07:SLOT:container:%s:finish-only-in-value-position" % nm, "%s completes the parent's entry only if the popped frame was opened in value position" % nm,
+                  "%s calls finish_value whatever position the container was opened in: closing a sequence / mapping used as a *key* makes the parent expect a key again, so the following value is taken for a key and every later `<<` of that mapping is mis-counted" % nm, config, ctx.where(g))
+
+
 def rule_ratio_only_at_end(ctx, fx, config):
     """The alias/anchor ratio is a statement about a whole counting unit (all anchors of the input — of the document under
     per-document enforcement — wherever they are defined).  It is evaluated only (a) by `finalize`, or (b) by `observe` on the
@@ -693,6 +734,7 @@ def run(ctx):
         fx = ctx.facts(config)
         rule_limit(ctx, fx, config)
         rule_ratio_only_at_end(ctx, fx, config)
+        rule_container_slot(ctx, fx, config)
         rule_scalar_bytes_operand(ctx, fx, config)
         rule_reset(ctx, fx, config)
         rule_observe(ctx, fx, config)
